@@ -172,7 +172,10 @@ func reachesTrouble(m *projsim.Model, id int) bool {
 	return walk(id)
 }
 
-func checkRun(m *projsim.Model, label string, events []projsim.Event, log []projsim.LogEntry, dry bool, runErr string, where string) *ev.Verdict {
+// stateFault: a body of this build removed part of the state directory, so that records may fail to be
+// written. The statement does not say what is reported then; only the shape of each target's events
+// (never two completion events, output between evaluating and completion) is still held.
+func checkRun(m *projsim.Model, label string, events []projsim.Event, log []projsim.LogEntry, dry bool, runErr string, where string, stateFault bool) *ev.Verdict {
 	fail := func(sig, format string, args ...any) *ev.Verdict {
 		f := ev.Failf(sig, where+": "+format, args...)
 		return &f
@@ -225,7 +228,7 @@ func checkRun(m *projsim.Model, label string, events []projsim.Event, log []proj
 		case s == "UpToDate":
 		case s == "Failed":
 			// lone failure: only for a missing or cyclic dependency (or an up-to-date check error)
-			if isFn && !reachesTrouble(m, id) && !strings.Contains(events[idx[0]].Text, "computing function environment") {
+			if isFn && !stateFault && !reachesTrouble(m, id) && !strings.Contains(events[idx[0]].Text, "computing function environment") {
 				return fail("lone-failed", "%s has a lone Failed event (%s) although it has no missing or cyclic dependency", l, events[idx[0]].Text)
 			}
 			if !isFn && !strings.HasSuffix(l, ":default") && !strings.HasPrefix(l, "source:") {
@@ -325,10 +328,12 @@ func exec(c Case) (v ev.Verdict) {
 		}
 		id := live[op.T%len(live)]
 		lbl := m.Label(id)
+		wiped := false
 		for _, f := range op.Fail {
 			name := m.Targets[live[f%len(live)]].Name()
 			sim.SetFail(name, true)
 			if op.I%3 == 1 {
+				wiped = true
 				// the failing body also removes the temp folder of the state directory first, so
 				// that recording the failure fails as well
 				sim.SetWipe(name)
@@ -389,7 +394,7 @@ func exec(c Case) (v ev.Verdict) {
 			if r == len(runs)-1 {
 				runErr = res.RunErr
 			}
-			if f := checkRun(m, lbl, runs[r], logs[r], op.Dry, runErr, fmt.Sprintf("%s run %d", where, r)); f != nil {
+			if f := checkRun(m, lbl, runs[r], logs[r], op.Dry, runErr, fmt.Sprintf("%s run %d", where, r), wiped); f != nil {
 				return *f
 			}
 		}
